@@ -362,6 +362,7 @@ def run(chk, facts, tier, only=None):
                                where=f"{b.span['file']}:{where[kind]}", ok_detail=rows[0][3][:100])
                     chk.assume(f"{short_fn(k)} {kind} x{num}: {rows[0][3]}")
         chk.floor("non-arithmetic panic sites in decode-reachable code", n, 45)
+        cursor_rule()
         # the variant tag string: variant_seed appends `,<name|id>,<accessor>` to the label; the consumer must take those two
         # parts from the right, because the label is arbitrary text of the expected type
         from shared import fmt_template
@@ -384,6 +385,96 @@ def run(chk, facts, tier, only=None):
                    f"part may itself contain commas, and any other split reaches unreachable!() for such a label; found "
                    f"{[(x['m'], [lit_value(a) for a in x['args']]) for x in sp]}",
                    ok_detail="rsplitn(3, ',')")
+
+    def cursor_rule():
+        """`done()`, `dump_state()` and every slice of the remaining input assume position <= input length.  The cursor only moves through
+        bounds-checking readers, except at explicit set_position calls: each of those must rewind to an earlier position() or be
+        dominated by a comparison against the input length, and no other cursor-moving API (Seek::seek, consume, get_mut) may be used"""
+        from facts import op_place, term_callee
+        cc = facts.crate("candid")
+        n_set = 0
+        MOVERS = re.compile(r"std::io::Seek::(seek|rewind|seek_relative)$|std::io::BufRead::consume$|cursor::Cursor::<T>::(get_mut|into_inner|set_position)$")
+        for k, b in sorted(cc.bodies.items()):
+            if not b.span["file"].endswith("candid/src/de.rs"):
+                continue
+            defs = {}
+            for bi, blk in enumerate(b.blocks):
+                for st in blk["s"]:
+                    if st["k"] == "assign" and not st["p"].get("p"):
+                        defs.setdefault(st["p"]["l"], []).append(("rv", st["r"], bi))
+                t = blk["t"]
+                if t["k"] == "call" and t.get("dest") and not t["dest"].get("p"):
+                    d, r = term_callee(t)
+                    defs.setdefault(t["dest"]["l"], []).append(("call", r or d or "", bi, t))
+
+            def sources(l, depth=0, seen=None):
+                """names of the calls / rvalue kinds a local's value is computed from"""
+                seen = seen if seen is not None else set()
+                if l in seen or depth > 10:
+                    return set()
+                seen.add(l)
+                out = set()
+                for d in defs.get(l, []):
+                    if d[0] == "call":
+                        out.add(d[1])
+                        if re.search(r"(::from$|::into$|::try_from$|::try_into$|::unwrap$|Try>::branch$|::clone$|::deref$|::as_ref$|convert::identity$)", d[1]):
+                            for a in d[3].get("args", []):
+                                pa = op_place(a)
+                                if pa is not None:
+                                    out |= sources(pa["l"], depth + 1, seen)
+                    else:
+                        rv = d[1]
+                        out.add("rv:" + rv["k"] + (":" + rv.get("op", "") if rv["k"] in ("bin", "un") else ""))
+                        for key in ("o", "a", "b"):
+                            if key in rv:
+                                pa = op_place(rv[key])
+                                if pa is not None:
+                                    out |= sources(pa["l"], depth + 1, seen)
+                        if "p" in rv and isinstance(rv["p"], dict) and "l" in rv["p"]:
+                            out |= sources(rv["p"]["l"], depth + 1, seen)
+                        for o in rv.get("ops", []) or []:
+                            pa = op_place(o)
+                            if pa is not None:
+                                out |= sources(pa["l"], depth + 1, seen)
+                return out
+
+            dom = None
+            for bi, t, cal in b.call_sites():
+                if b.is_cleanup(bi) or not cal or not MOVERS.search(cal):
+                    continue
+                fnn = short_fn(k)
+                if not cal.endswith("set_position"):
+                    chk.bad(f"cursor:{fnn}:{cal.rsplit('::', 1)[-1]}",
+                            f"{k} moves the input cursor with {cal}, which does not check the new position against the input length: "
+                            f"IDLDeserialize::done and dump_state slice the input at the cursor position and panic when it lies beyond the end",
+                            where=f"{b.span['file']}:{t.get('ln')}")
+                    continue
+                n_set += 1
+                arg = op_place(t["args"][1]) if len(t.get("args", [])) > 1 else None
+                src = sources(arg["l"]) if arg is not None else set()
+                adds = any(x.startswith("rv:bin:Add") or x.startswith("rv:bin:Mul") or x.startswith("rv:bin:Sub") for x in src)
+                rewind = any(x.endswith("Cursor::<T>::position") for x in src) and not adds
+                guarded = False
+                if not rewind:
+                    dom = dom or b.dominators()
+                    for db in dom.get(bi, ()):
+                        tt = b.blocks[db]["t"]
+                        if tt["k"] != "switch":
+                            continue
+                        dp = op_place(tt["d"])
+                        if dp is None:
+                            continue
+                        ss = sources(dp["l"])
+                        cmp_ = any(re.match(r"rv:bin:(Lt|Le|Gt|Ge)", x) for x in ss)
+                        lens = any(x.endswith("]>::len") or x in ("rv:len", "rv:un:PtrMetadata") or x.endswith("::len") for x in ss)
+                        if cmp_ and lens:
+                            guarded = True
+                chk.expect(rewind or guarded, f"cursor:{fnn}:set_position@{'rewind' if rewind else 'advance'}",
+                           f"{k}: set_position is neither a rewind to an earlier position() nor dominated by a comparison against the length of the "
+                           f"input slice; the cursor could be placed beyond the end of the input (done() / dump_state() would panic)",
+                           where=f"{b.span['file']}:{t.get('ln')}",
+                           ok_detail="rewinds to a saved position()" if rewind else "advance dominated by a comparison with the slice length")
+        chk.floor("set_position sites in de.rs", n_set, 7)
 
     def r5():
         n = 0
